@@ -25,6 +25,7 @@ var srids = []int{0, 3857, 4326}
 func main() {
 	r := core.NewRun("C52", "exploration",
 		"each evaluation is one law instance over a generated geometry (kind, SRID, coordinate classes) judged by byte equality of ST_AsWKB against an independent encoder, or one spatial-index probe compared with an index-free twin table; distinct = (law, geometry class, SRID) that held / (predicate, probe class) pairs")
+	r.Fold(8, 3)
 	r.Assume("SRIDs 0, 3857, 4326 (the ones this tree defines); for 4326 coordinates stay inside [-90,90]×[-180,180]; WKT is written in canonical upper-case form without extra blanks")
 	r.Assume("geometry equality = byte equality of ST_AsWKB and equal ST_SRID; polygon rings are closed but otherwise arbitrary (validity is not needed for a round trip)")
 
@@ -92,9 +93,19 @@ func laws() []L {
 		}},
 		{Name: "geojson-roundtrip", Weight: 3, Gen: func(rnd *rand.Rand) *Inst {
 			// GeoJSON is WGS 84: the geometry is created with SRID 4326 and must come back identical
-			g := genAny(rnd, 4326)
+			g := genAny(rnd, 4326).noNegZero() // −0 is printed as 0 in the JSON text: not judged
 			e := fromText(g, 4326)
-			return g5lib.NewInst(g.class(), g.wkt(), func(v []V) string {
+			cls := g.class()
+			if g.hasSinglePointMultiPoint() {
+				cls += "/single-point-multipoint"
+			}
+			return &Inst{Class: cls, Args: g.wkt(), OnErr: g5lib.ErrToCheck, Exprs: []string{fmt.Sprintf("HEX(ST_AsWKB(ST_GeomFromGeoJSON(ST_AsGeoJSON(%s))))", e), fmt.Sprintf("ST_SRID(ST_GeomFromGeoJSON(ST_AsGeoJSON(%s)))", e)}, Check: func(v []V) string {
+				if g5lib.IsErr(v) {
+					if g.hasSinglePointMultiPoint() && strings.Contains(g5lib.ErrOf(v), "invalid GeoJSON data") {
+						return "single-point-multipoint-rejected-by-geomfromgeojson"
+					}
+					return "error"
+				}
 				if !v[0].IsStr(g.hexLE()) {
 					return "geojson-roundtrip-differs"
 				}
@@ -102,7 +113,7 @@ func laws() []L {
 					return "geojson-srid-not-4326"
 				}
 				return ""
-			}, fmt.Sprintf("HEX(ST_AsWKB(ST_GeomFromGeoJSON(ST_AsGeoJSON(%s))))", e), fmt.Sprintf("ST_SRID(ST_GeomFromGeoJSON(ST_AsGeoJSON(%s)))", e))
+			}}
 		}},
 		{Name: "swapxy", Weight: 3, Gen: func(rnd *rand.Rand) *Inst {
 			srid := srids[rnd.Intn(2)] // cartesian (for 4326 a swap can leave the latitude range)
@@ -205,7 +216,7 @@ func laws() []L {
 				bad[1] = byte(8 + rnd.Intn(200))
 				expr, cls = fmt.Sprintf("ST_GeomFromWKB(%s,%d)", g5lib.X(bad), srid), "wkb-unknown-type"
 			default: // garbage WKT
-				expr, cls = fmt.Sprintf("ST_GeomFromText(%s,%d)", Q([]string{"POINT(1)", "POINT(1 2 3 4 5", "LINESTRING(1 1)", "POLYGON((0 0,1 1,0 0))", "POINT(a b)", "CIRCLE(1 2)", ""}[rnd.Intn(7)]), srid), "wkt-garbage"
+				expr, cls = fmt.Sprintf("ST_GeomFromText(%s,%d)", Q([]string{"POINT(1)", "POINT(1 2 3 4 5", "POINT(a b)", "CIRCLE(1 2)", "", "POINT(1 2))", "LINESTRING(1 2,)"}[rnd.Intn(7)]), srid), "wkt-garbage"
 			}
 			return &Inst{Class: cls + "/" + kindName[g.kind], Args: expr, OnErr: g5lib.ErrToCheck, Exprs: []string{"ST_AsText(" + expr + ")"}, Check: func(v []V) string {
 				if g5lib.IsErr(v) {
@@ -366,5 +377,26 @@ func spatialIndex(r *core.Run) {
 	r.Floor(probes > 0, "no spatial-index probe reached a verdict")
 }
 
+// pinned replays the witnesses of the known findings (findings/C52.txt).
 func pinned(r *core.Run) {
+	// domain exclusion: an empty collection that is not the last member of its parent
+	g5lib.Pin(r, "wkt-domain", "empty-collection-before-another-member-rejected", "ST_GeomFromText rejects a collection whose EMPTY member is followed by another member (ST_AsText produces such text)",
+		"ST_AsText(ST_GeomFromText('GEOMETRYCOLLECTION(GEOMETRYCOLLECTION EMPTY,POINT(1 2))'))", "'GEOMETRYCOLLECTION(GEOMETRYCOLLECTION EMPTY,POINT(1 2))'", "ERR:invalid GIS data")
+	g5lib.Pin(r, "wkt-domain", "empty-collection-before-another-member-truncates-nested-collection", "nested one level deeper the same text is accepted and the members after EMPTY are silently dropped",
+		"ST_AsText(ST_GeomFromText('GEOMETRYCOLLECTION(POINT(0 0),GEOMETRYCOLLECTION(GEOMETRYCOLLECTION EMPTY,POINT(1 2)))'))",
+		"'GEOMETRYCOLLECTION(POINT(0 0),GEOMETRYCOLLECTION(GEOMETRYCOLLECTION EMPTY,POINT(1 2)))'", "'GEOMETRYCOLLECTION(POINT(0 0),GEOMETRYCOLLECTION EMPTY)'")
+	g5lib.Pin(r, "geojson-roundtrip", "single-point-multipoint-rejected-by-geomfromgeojson", "ST_GeomFromGeoJSON rejects the MultiPoint with one point that ST_AsGeoJSON printed",
+		"ST_AsText(ST_GeomFromGeoJSON(ST_AsGeoJSON(ST_GeomFromText('MULTIPOINT((1 2))',4326))))", "'MULTIPOINT((1 2))'", "ERR:invalid GeoJSON data")
+	// malformed WKB accepted / panicking
+	rejected := func(v []V) string {
+		if g5lib.IsErr(v) || v[0].IsNull() {
+			return ""
+		}
+		return "wkb-byte-order-flag-accepted"
+	}
+	g5lib.PinnedInst(r, "malformed-rejected", "wkb-byte-order-flag-accepted", "ST_GeomFromWKB accepts a byte-order flag other than 0/1 (treated as little endian)",
+		&Inst{Class: "pinned", OnErr: g5lib.ErrToCheck, Check: rejected, Exprs: []string{"ST_AsText(ST_GeomFromWKB(x'0201000000000000000000F03F0000000000000040'))"}})
+	g5lib.PinnedInst(r, "malformed-rejected", "panic:sql/types.DeserializeLine", "ST_GeomFromWKB panics on a LINESTRING whose point count exceeds the data (slice bounds out of range)",
+		&Inst{Class: "pinned", OnErr: g5lib.ErrToCheck, Check: func(v []V) string { return "" },
+			Exprs: []string{"ST_AsText(ST_GeomFromWKB(x'0102000000030000000000000000000000000000000000000000000000000000F03F000000000000F03F'))"}})
 }
